@@ -55,6 +55,24 @@ func isFCCall(c ssa.CallInstruction, iface *types.Interface, name string) bool {
 	return implementsIface(r.Type(), iface)
 }
 
+// c05IsSlotHolder reports whether t (or *t) has methods TryAcquire() bool and Release(): the
+// shape of the bucket that counts the in-flight requests of a limiter.
+func c05IsSlotHolder(t types.Type) bool {
+	has := func(name string, results int) bool {
+		for _, tt := range []types.Type{t, types.NewPointer(t)} {
+			ms := types.NewMethodSet(tt)
+			for i := 0; i < ms.Len(); i++ {
+				if f, ok := ms.At(i).Obj().(*types.Func); ok && f.Name() == name {
+					sig := f.Type().(*types.Signature)
+					return sig.Params().Len() == 0 && sig.Results().Len() == results
+				}
+			}
+		}
+		return false
+	}
+	return has("TryAcquire", 1) && has("Release", 0)
+}
+
 func inFlowControlPkgs(fn *ssa.Function) bool {
 	if fn.Pkg == nil {
 		return false
@@ -448,10 +466,17 @@ func c05(c *eng.Ctx) {
 		}
 		// delegate fields: fields whose type is an interface implementing FlowControl
 		var delegates []string
+		buckets := map[string]bool{}
 		for i := 0; i < st.NumFields(); i++ {
 			ft := st.Field(i).Type()
 			if _, isI := ft.Underlying().(*types.Interface); isI && implementsIface(ft, iface) {
 				delegates = append(delegates, st.Field(i).Name())
+			} else if c05IsSlotHolder(ft) {
+				// the bucket that holds the slots (embedded or named field with TryAcquire() bool and
+				// Release()): a limiter that declares its own Release instead of promoting the
+				// bucket's is a wrapper of that bucket and owes it every release (seeded C05-7)
+				delegates = append(delegates, st.Field(i).Name())
+				buckets[st.Field(i).Name()] = true
 			}
 		}
 		if len(delegates) == 0 {
@@ -462,12 +487,12 @@ func c05(c *eng.Ctx) {
 		if rel != nil && rel.Blocks != nil {
 			isDelegRel := func(ins ssa.Instruction) bool {
 				ci, ok := ins.(ssa.CallInstruction)
-				if !ok || !isFCCall(ci, iface, "Release") {
+				if !ok || !eng.MethodNameIs(ci, "Release") {
 					return false
 				}
 				r := eng.Receiver(ci)
 				for _, d := range delegates {
-					if eng.FieldLoadOf(r, tn, d) {
+					if eng.FieldLoadOf(r, tn, d) && (buckets[d] || isFCCall(ci, iface, "Release")) {
 						return true
 					}
 				}
